@@ -461,12 +461,13 @@ func checkAADAgreement(c *Ctx) {
 	seal, p1 := shape(c.MustFunc("Memberlist.encryptLocalState"), "encryptPayload", 3)
 	open, p2 := shape(c.MustFunc("Memberlist.decryptRemoteState"), "decryptPayload", 2)
 	_ = p2
+	checkAADConcat(c, "C12")
 	c.Check("C12/aad/stream", rule, p1, seal != "" && seal == open && strings.HasPrefix(seal, "appendBytes(HDR.Bytes()[:5],[]byte(streamLabel))"), "seal authenticates "+seal+", open authenticates "+open)
 	// appendBytes never aliases its first argument's spare capacity when it has to join two parts
 	ab := c.MustFunc("appendBytes")
 	okCopy := false
 	inspectFn(ab, func(n ast.Node) bool {
-		if call, ok := n.(*ast.CallExpr); ok && c.P.Builtin(call) == "make" && len(call.Args) == 3 {
+		if call, ok := n.(*ast.CallExpr); ok && c.P.Builtin(call) == "make" && len(call.Args) >= 2 {
 			okCopy = true
 		}
 		return true
@@ -573,4 +574,80 @@ func checkLengthAccounting(c *Ctx) {
 		}
 	}
 	c.Check("C12/length/padder-scope", rule, ep.Decl.Pos(), okPad, "the padder is not told to ignore exactly the bytes before the plaintext (offset + version + nonce)")
+}
+
+// checkAADConcat: the helper that assembles the stream's associated data
+// returns its two operands concatenated (header bytes, then label). Both the
+// sealing and the opening side use it, so a helper that silently drops the
+// label would still round-trip - and streams sealed for one label would open
+// under any other. Per exit, read from the exploration: with one operand empty
+// the other one is returned; with both present the result is append(append(
+// <empty>, first), second), or a buffer of length len(first)+len(second) into
+// which first is copied at 0 and second at len(first).
+func checkAADConcat(c *Ctx, prop string) {
+	fn := c.MustFunc("appendBytes")
+	x := c.flow(fn, map[string]string{})
+	rule := "associated data: the helper that joins the stream header bytes and the label returns exactly first followed by second (a dropped label would make streams sealed for one label open under any other)"
+	c.Rule(rule)
+	n := 0
+	for _, ex := range x.Exits {
+		if ex.Kind != "return" || len(ex.Ret) != 1 {
+			continue
+		}
+		n++
+		f1, h1 := atomU(ex.Cube, "len(first)>=1")
+		s1, h2 := atomU(ex.Cube, "len(second)>=1")
+		r := untok(ex.Ret[0])
+		ok, why := true, ""
+		switch {
+		case h1 && f1 == "F" && h2 && s1 == "F":
+			// both empty: any empty result
+		case h1 && f1 == "F":
+			ok = r == "second" || (strings.HasPrefix(r, "append(") && strings.HasSuffix(r, ",second)") && !strings.Contains(r, "first"))
+			why = "first is empty but the result is " + r + ", not second"
+		case h2 && s1 == "F":
+			ok = r == "first" || (strings.HasPrefix(r, "append(") && strings.HasSuffix(r, ",first)") && !strings.Contains(r, "second"))
+			why = "second is empty but the result is " + r + ", not first"
+		default:
+			// both may be present
+			appendForm := strings.HasPrefix(r, "append(append(") && strings.HasSuffix(r, ",first),second)") &&
+				(strings.HasPrefix(r, "append(append(make([]byte,0") || strings.HasPrefix(r, "append(append(nil,") || strings.HasPrefix(r, "append(append([]byte{}"))
+			copyForm := false
+			if strings.HasPrefix(r, "make([]byte,") {
+				size := strings.TrimSuffix(strings.TrimPrefix(r, "make([]byte,"), ")")
+				if i := strings.LastIndex(size, ","); i > 0 && !strings.Contains(size[i:], "(") {
+					size = size[:i] // drop a capacity operand
+				}
+				co, k, okL := linearName(size)
+				c1, c2 := false, false
+				for _, e := range x.Effects {
+					if e.Class != "COPY" || !cubeCompatible(e.Cube, ex.Cube) {
+						continue
+					}
+					d, sname := untok(e.Detail["dst"]), untok(e.Detail["src"])
+					if sname == "first" && d == r {
+						c1 = true
+					}
+					if sname == "second" && d == r+"[len(first):]" {
+						c2 = true
+					}
+				}
+				copyForm = okL && k == 0 && co["len(first)"] == 1 && co["len(second)"] == 1 && len(nonzero(co)) == 2 && c1 && c2
+			}
+			ok = appendForm || copyForm
+			why = "with both operands present the result is " + r + ", which is not first followed by second"
+		}
+		c.Check(prop+"/aad/concat-helper", rule, ex.Pos, ok, why)
+	}
+	c.Floor("returns of the associated-data helper", n, 2)
+}
+
+// cubeCompatible: the two path conditions do not contradict each other.
+func cubeCompatible(a, b map[string]string) bool {
+	for k, v := range a {
+		if w, ok := b[k]; ok && w != v {
+			return false
+		}
+	}
+	return true
 }
